@@ -166,18 +166,22 @@ def disk_tree(sb):
 
 
 def canon(content):
-    """dates removed, lines of every xvc block sorted (the order inside a block is HashMap iteration order)"""
-    out, pos = [], 0
-    for m in BANNER.finditer(content):
-        if m.start() < pos: continue
-        out.append(content[pos:m.start()])
+    """dates removed, lines of every xvc block sorted (the order inside a block is HashMap iteration order).  A block is
+    the banner's line count or the lines up to the next banner, whichever is shorter (the user may have removed lines)."""
+    lines = content.split('\n')
+    out, i = [], 0
+    while i < len(lines):
+        m = BANNER.fullmatch(lines[i] + '\n') if i < len(lines) - 1 else None
+        if not m:
+            out.append(lines[i]); i += 1; continue
         n = int(m.group(1))
-        rest = content[m.end():].split('\n')
-        block = sorted(rest[:n])
-        out.append(f'### Following {n} lines are added by xvc on DATE\n' + '\n'.join(block) + '\n')
-        pos = m.end() + sum(len(x) + 1 for x in rest[:n])
-    out.append(content[pos:])
-    return ''.join(out)
+        out.append(f'### Following {n} lines are added by xvc on DATE')
+        j = i + 1
+        while j < len(lines) - 1 and j - i - 1 < n and not BANNER.fullmatch(lines[j] + '\n'):
+            j += 1
+        out += sorted(lines[i + 1:j])
+        i = j
+    return '\n'.join(out)
 
 
 def tracked_files(sb):
